@@ -4222,6 +4222,28 @@ impl<'a> Parser<'a> {
                     span: self.span_from(start),
                 }))
             }
+            TokenKind::BigInt(n) => {
+                let n = n.clone();
+                self.advance();
+                Ok(TypeAnnotation::Literal(TypeLiteral {
+                    value: LiteralValue::BigInt(n),
+                    span: self.span_from(start),
+                }))
+            }
+            // Negative numeric literal types: -1, -10n
+            TokenKind::Minus => {
+                self.advance();
+                let value = match &self.current.kind {
+                    TokenKind::Number(n) => LiteralValue::Number(-*n),
+                    TokenKind::BigInt(n) => LiteralValue::BigInt(format!("-{}", n)),
+                    _ => return Err(self.unexpected_token("numeric literal type")),
+                };
+                self.advance();
+                Ok(TypeAnnotation::Literal(TypeLiteral {
+                    value,
+                    span: self.span_from(start),
+                }))
+            }
             TokenKind::True => {
                 self.advance();
                 Ok(TypeAnnotation::Literal(TypeLiteral {
